@@ -220,8 +220,8 @@ def lookup(ctx):
             E = sym.Engine(ctx, max_paths=5000, incremental=True)
             found = E.explore(h)
             seen = set()
-            for label, m, pc in found:
-                t, e = choice.value_in_model(m, h.link)
+            for (label, m, pc), A in list(zip(found, E.autosnaps)):
+                t, e = choice.value_in_model(m, A["link"])
                 if t in seen:
                     continue
                 seen.add(t)
